@@ -233,3 +233,24 @@ def join_theorems(ck: Ck, started) -> None:
     rest = [o for o in ck.obligations if not o['name'].startswith(pre)]
     i = max((k + 1 for k, o in enumerate(rest) if o['name'].startswith(('build:', 'hygiene:'))), default=len(rest))
     ck.obligations[:] = rest[:i] + th + rest[i:]
+
+
+def instance_obligations_parallel(ck: Ck, groups: Sequence[tuple]) -> dict[str, bool]:
+    """Several `ck.instance_obligations(imports, obs, name)` groups at once (each group is two sequential coqc runs that mostly
+    wait for the library to load).  Afterwards the `instance:` entries are put in the order of `groups`, so the evidence file does
+    not depend on which thread finished first.  Group names must differ (they name the scratch directories)."""
+    assert len({g[2] for g in groups}) == len(groups)
+    with ThreadPoolExecutor(len(groups)) as ex:
+        parts = list(ex.map(lambda g: ck.instance_obligations(g[0], g[1], name=g[2]), groups))
+    order = {f'instance:{n}': i for i, n in enumerate(n for g in groups for n in g[1])}
+    idx = [k for k, o in enumerate(ck.obligations) if o['name'] in order]
+    if idx:
+        inst = sorted((ck.obligations[k] for k in idx), key=lambda o: order[o['name']])
+        first = idx[0]
+        before = [o for o in ck.obligations[:first] if o['name'] not in order]
+        after = [o for o in ck.obligations[first:] if o['name'] not in order]
+        ck.obligations[:] = before + inst + after
+    out: dict[str, bool] = {}
+    for p_ in parts:
+        out.update(p_)
+    return out
